@@ -1087,7 +1087,9 @@ func isDigit(r rune) bool {
 func allSpaceWithNewline(str string) bool {
 	var seenNewline = false
 	for _, ch := range str {
-		if !unicode.IsSpace(ch) {
+		// the same four characters the line-joining rule treats as whitespace
+		// (a no-break space or a form feed between two tags is content)
+		if !isSpaceEOL(ch) {
 			return false
 		}
 		if isEndOfLine(ch) {
